@@ -2,8 +2,12 @@
 //! Every site becomes one constructor of `Generated.PanicSite`; the hand-written total function
 //! `justify : PanicSite → Justification` (lean/IsoMdl/Spec/PanicJustify.lean) then fails to compile
 //! when a site appears (missing case) or disappears (unknown constructor).
-//! A site is keyed by (file, enclosing fn, kind, normalised operand tokens, occurrence number) — not
-//! by line — so reformatting and unrelated edits do not change the inventory.
+//! A site CLASS is keyed by (file, kind, SHAPE of the operand): the operand's tokens with every local name
+//! (variables, `self`) replaced by `_`, keeping paths, types, method and field names, macros and literals.
+//! Reformatting, renaming locals, merging two identical calls into one or moving the code into a helper
+//! function of the same file therefore leave the inventory unchanged; a panicking operation on a new
+//! callee / of a new kind / in another file is a new constructor.  The enclosing function of the first
+//! occurrence is kept in the description only.
 use crate::{is_cfg_test, parse_file, Out};
 use quote::ToTokens;
 use std::collections::BTreeMap;
@@ -37,7 +41,15 @@ impl<'ast> Visit<'ast> for V {
     fn visit_expr_method_call(&mut self, m: &'ast syn::ExprMethodCall) {
         let n = m.method.to_string();
         // `expect(msg)` and `unwrap()` are the same site (the message is not part of its identity)
-        if PANICKING_METHODS.contains(&n.as_str()) { self.add(if n == "expect" { "unwrap" } else { &n }, norm(&m.receiver)); }
+        // the operand of `x.a().b(c).unwrap()` is the call whose result is unwrapped, `. b ( c )`: what comes before it in the
+        // chain produces the value `b` is applied to and has its own entry if it can panic
+        if PANICKING_METHODS.contains(&n.as_str()) {
+            let operand = match &*m.receiver {
+                syn::Expr::MethodCall(r) => format!(". {} {} ( {} )", r.method, r.turbofish.as_ref().map(norm).unwrap_or_default(), r.args.iter().map(norm).collect::<Vec<_>>().join(" , ")),
+                other => norm(other),
+            };
+            self.add(if n == "expect" { "unwrap" } else { &n }, operand);
+        }
         syn::visit::visit_expr_method_call(self, m);
     }
     fn visit_expr_call(&mut self, c: &'ast syn::ExprCall) {
@@ -96,6 +108,36 @@ fn walk(dir: &Path, out: &mut Vec<std::path::PathBuf>) {
     for p in entries { if p.is_dir() { if p.file_name().map(|n| n == "bin").unwrap_or(false) { continue; } walk(&p, out); } else if p.extension().map(|e| e == "rs").unwrap_or(false) { out.push(p); } }
 }
 
+/// operand shape: see the module comment
+fn shape(operand: &str) -> String {
+    fn flat(ts: proc_macro2::TokenStream, out: &mut Vec<(char, String)>) {
+        for t in ts { match t {
+            proc_macro2::TokenTree::Group(g) => { let (o, c) = match g.delimiter() { proc_macro2::Delimiter::Parenthesis => ("(", ")"), proc_macro2::Delimiter::Brace => ("{", "}"), proc_macro2::Delimiter::Bracket => ("[", "]"), _ => ("", "") };
+                out.push(('p', o.into())); flat(g.stream(), out); out.push(('p', c.into())); }
+            proc_macro2::TokenTree::Ident(i) => out.push(('i', i.to_string())),
+            proc_macro2::TokenTree::Punct(p) => { if p.spacing() == proc_macro2::Spacing::Joint { out.push(('j', p.as_char().to_string())) } else { out.push(('p', p.as_char().to_string())) } }
+            proc_macro2::TokenTree::Literal(l) => out.push(('l', l.to_string())),
+        } }
+    }
+    let Ok(ts) = operand.parse::<proc_macro2::TokenStream>() else { return operand.to_string() };
+    let mut toks = vec![]; flat(ts, &mut toks);
+    // glue joint puncts (`::`, `+=`, `->`)
+    let mut glued: Vec<(char, String)> = vec![];
+    for (k, t) in toks { if let Some(last) = glued.last_mut() { if last.0 == 'j' { last.1.push_str(&t); last.0 = if k == 'j' { 'j' } else { 'p' }; continue; } } glued.push((k, t)); }
+    const KEEP: [&str; 9] = ["mut", "as", "ref", "move", "dyn", "impl", "true", "false", "crate"];
+    let mut out = vec![];
+    for i in 0..glued.len() {
+        let (k, t) = &glued[i];
+        if *k != 'i' { out.push(t.clone()); continue; }
+        let prev = if i > 0 { glued[i - 1].1.as_str() } else { "" };
+        let next = glued.get(i + 1).map(|x| x.1.as_str()).unwrap_or("");
+        let keep = KEEP.contains(&t.as_str()) || t.chars().next().map(|c| c.is_uppercase()).unwrap_or(false)
+            || next == "(" || next == "::" || next == "!" || prev == "." || prev == "::";
+        out.push(if keep { t.clone() } else { "_".into() });
+    }
+    out.join(" ")
+}
+
 fn sanitize(s: &str) -> String { s.chars().map(|c| if c.is_ascii_alphanumeric() { c } else { '_' }).collect::<String>().trim_matches('_').to_string() }
 
 fn fnv(s: &str) -> u32 { let mut h: u32 = 0x811c9dc5; for b in s.bytes() { h ^= b as u32; h = h.wrapping_mul(0x01000193); } h }
@@ -111,18 +153,23 @@ pub fn run(repo: &Path, out: &mut Out) {
         v.visit_file(&ast);
         all.extend(v.sites);
     }
-    // occurrence numbers for identical keys
-    let mut seen: BTreeMap<(String, String, String, String), usize> = BTreeMap::new();
+    // one constructor per (file, kind, operand shape); the first occurrence describes it
+    let mut seen: BTreeMap<(String, String, String), usize> = BTreeMap::new();
     let mut lean = String::from("/- GENERATED by rust/xlate (T5 panic-site inventory) from /repo/src on every run. Do not edit. -/\nnamespace IsoMdl.Generated\n\ninductive PanicSite where\n");
     let mut descr = String::from("def PanicSite.describe : PanicSite → String\n");
     let mut names = vec![];
     for s in &all {
-        let n = seen.entry(s.clone()).or_insert(0); *n += 1;
+        // locals only (`x.unwrap()`, `assert_eq!(a, b)`) or an empty operand (`unreachable!()`): no shape to speak of, such a site stays tied to its text and function
+        let sh0 = shape(&s.3);
+        let shapeless = !sh0.split(' ').any(|t| t != "_" && t.chars().any(|c| c.is_ascii_alphanumeric()));
+        let sh = if shapeless { format!("{} in {}", s.3, s.1) } else { sh0 };
+        let n = seen.entry((s.0.clone(), s.2.clone(), sh.clone())).or_insert(0); *n += 1;
+        if *n > 1 { continue; }
         let file_short = s.0.trim_start_matches("src/").trim_end_matches(".rs");
-        let name = format!("{}__{}__{}_{:06x}{}", sanitize(file_short), sanitize(s.1.rsplit("::").next().unwrap_or("")), sanitize(&s.2.replace('+', "add").replace('-', "sub").replace('*', "mul").replace('!', "")),
-            fnv(&format!("{}|{}|{}|{}", s.0, s.1, s.2, s.3)) & 0xffffff, if *n > 1 { format!("_{n}") } else { String::new() });
+        let name = format!("{}__{}_{:06x}", sanitize(file_short), sanitize(&s.2.replace('+', "add").replace('-', "sub").replace('*', "mul").replace('!', "")),
+            fnv(&format!("{}|{}|{}", s.0, s.2, sh)) & 0xffffff);
         lean.push_str(&format!("  | {name}\n"));
-        descr.push_str(&format!("  | .{name} => {:?}\n", format!("{} :: {} :: {} :: {}", s.0, s.1, s.2, s.3)));
+        descr.push_str(&format!("  | .{name} => {:?}\n", format!("{} :: {} :: {}   (first in {}: {})", s.0, s.2, sh, s.1, s.3)));
         names.push(name);
     }
     lean.push_str("  deriving DecidableEq, Repr\n\n");
